@@ -273,7 +273,7 @@ def main():
     if [a for a, _ in got] != list(attr_consts) or [b for _, b in got] != ["VisibleString", "UnsignedInt", "SignedInt", "FloatingPoint", "OctetString", "BitString", "Dnp3Time", "AttrList", "ExtAttrList"]:
         die("AttrDataType::get has an unexpected shape")
     for text, what in [("let len = len as u16 + 256;", "extended list length"), ("if len != 6 {", "time length"),
-                       ("if len % 2 != 0 {", "list length parity"), ("1 => Ok(cursor.read_u8()? as i32),", "1-byte signed int read"),
+                       ("if len % 2 != 0 {", "list length parity"), ("1 => Ok(cursor.read_u8()? as i8 as i32),", "1-byte signed int read (sign-extended)"),
                        ("2 => Ok(cursor.read_i16_le()? as i32),", "2-byte signed int read"),
                        ("if range.get_count() != 1 {", "attribute range count"), ("if count != 1 {", "attribute prefix count")]:
         if text not in asrc: die("attr.rs: pinned line not found (%s)" % what)
